@@ -4,6 +4,7 @@ real tokens vs the code-shaped Lean model, judged by set algebra; (2) RegularExp
 vs the proved matcher on generated expressions x all short strings; (3) malformed patterns must be rejected."""
 import itertools, json
 import common
+from props import c11_xsd as XSD
 
 PID = "C11"
 GEN = []
@@ -15,11 +16,21 @@ RULE = ("range histories: 4 tokens, 3-14 ops drawn from add/merge/subtract/inter
         "universe with overlaps, adjacency and the 0 / 0xFF / 0x100 / 0x10FFFF edges; regexes: random ASTs (depth<=4) over "
         "{a,b,c} with classes, negation, subtraction, groups, every quantifier form, x all strings of length<=4 over "
         "{a,b,c,x} plus long random strings; non-trivial = history with >=2 ops touching one token / regex with an operator; "
-        "distinct by text")
+        "distinct by text; long subjects: small expressions pad* core{n,m} tail pad* (tail = alternation / optional / group / "
+        "class / nothing; three bracketings) x subjects built from the parts with the core repeated 0..m+1 times, wrong tails and a "
+        "corrupted pad, padded to total lengths 40/255..259/300/511..513/600, in schema mode, anchored ^..$ and unanchored under "
+        "the option sets -/F/H/FH; syntax: quantifier grid {n,m},{n},{n,} over n,m in 0..4,7,12 x 4 atoms x both modes, a curated "
+        "edge list and mutated edge-syntax expressions, each judged by an independent Appendix F parser (reject / accept with "
+        "language / no claim)")
 ASSUMPTIONS = ["sortRanges (bubble sort) modelled by insertion sort on the same total order",
                "category/block escapes: range lists taken from the library itself (not re-derived from UCD)",
-               "options i/s/m/x, back-references, look-around, tokenize/replace: not modelled (partial)"]
-TRUSTED = ["XV.Spec.Regex (language semantics)", "Python renderer of regex ASTs to XSD syntax"]
+               "options i/s/m/x, back-references, look-around, tokenize/replace: not modelled (partial)",
+               "general (non-schema) syntax: only dialect-independent errors are claimed (min > max, unbalanced parentheses, on texts "
+               "without class / escape / (? constructs); accepted general-mode expressions are judged through ^..$ or an unanchored search",
+               "Appendix F points on which the Recommendation is silent or inconsistent (unknown block names, '^' after the negation, "
+               "'--' at the start of a group) are not judged; unescaped braces follow the prose (metacharacters) and XSD 1.1 production [10]"]
+TRUSTED = ["XV.Spec.Regex (language semantics)", "Python renderer of regex ASTs to XSD syntax",
+           "tools/props/c11_xsd.py (Appendix F recursive-descent parser: syntactic oracle and text -> Spec expression)"]
 
 MAXC = 0x10FFFF
 FASTCRASH = {"ASAN_OPTIONS": "detect_leaks=0:symbolize=0:allocator_may_return_null=1"}
@@ -312,7 +323,7 @@ def run_regex(ctx):
     m = common.run_driver(["regex"], input=("\n".join(model_in) + "\n").encode()).decode().split("\n")
     i, crashes = common.run_lines_resilient("hx_regex", impl_in, env=FASTCRASH)
     ctx.stats["regex_crashes"] = len(crashes)
-    bad = {}
+    bad = {}; gen_mism = []
     for k, c in enumerate(cases):
         mo, io = m[k], (i[k] if k < len(i) else "NO-OUTPUT")
         if mo == "bad-op":
@@ -321,13 +332,23 @@ def run_regex(ctx):
             key = "regex-crash-unbounded-repeat-of-nullable" if rpn_hazard(c[1].split()[1]) and "stack-overflow" in io else "regex-crash"
             if key not in bad or len(c[2]) + len(c[3]) < len(bad[key][2]) + len(bad[key][3]):
                 bad[key] = (mo, io, c[2], c[3])
+        elif mo != io and io in ("0", "1") and (c[2].endswith(" /-") or c[2].endswith(" /F")):
+            gen_mism.append((k, c))           # general mode without option H: judged below
         elif mo != io:
             key = "regex-overlapping-class-ranges" if c[2] in dict(FIXED_RE) and c[2].startswith("[") else "regex-match:" + ("parse" if io.startswith("exc") else "verdict")
             if key not in bad or len(c[2]) + len(c[3]) < len(bad[key][2]) + len(bad[key][3]):
                 bad[key] = (mo, io, c[2], c[3])
+    # general-mode mismatches that disappear when option H switches the head-character optimisation off are one defect
+    # (Token::analyzeFirstCharacter) and get their own category; anything else stays a verdict violation
+    hc = head_char_explains([(c[2].rsplit(" /", 1)[0], c[3], c[2].rsplit(" /", 1)[1], m[k]) for k, c in gen_mism[:400]])
+    ctx.stats["head_character_cases"] = len(hc)
+    for n, (k, c) in enumerate(gen_mism[:400]):
+        key = "regex-head-character-optimisation" if n in hc else "regex-match:verdict"
+        if key not in bad or len(c[2]) + len(c[3]) < len(bad[key][2]) + len(bad[key][3]):
+            bad[key] = (m[k], i[k], c[2], c[3])
     # second pass: a false negative that disappears when an explicit end sentinel forces the continuation to fail
     # away from the end of the string is the recorded "first match is not backtracked to the end" defect
-    mism = [(k, c) for k, c in enumerate(cases) if m[k] == "1" and i[k] == "0"]
+    mism = [(k, c) for k, c in enumerate(cases) if m[k] == "1" and i[k] == "0" and " /" not in c[2]]   # schema mode only
     if mism:
         probe = ["M %s %s" % (hexs("(" + c[2] + ")#"), hexs(c[3] + "#")) for _, c in mism[:300]]
         po, _ = common.run_lines_resilient("hx_regex", probe, env=FASTCRASH)
@@ -347,8 +368,9 @@ def run_regex(ctx):
                     bad["regex-match:verdict"] = ("1", "0", c[2], c[3]); break
     for key, (mo, io, x, s) in bad.items():
         ctx.violations.append({"key": key, "concrete": True,
-            "what": "RegularExpression(%r, schema mode).matches(%r) = %s but the language semantics (proved matcher) says %s" % (x, s, io, mo),
-            "replay": {"op": "M", "pattern": x, "string": s, "impl": io, "spec": mo}})
+            "what": "RegularExpression(%r, %s).matches(%r) = %s but the language semantics (proved matcher) says %s" % (
+                x.rsplit(" /", 1)[0], mode_name(x.rsplit(" /", 1)[1]) + " (unanchored search)" if " /" in x else "schema mode", s, io, mo),
+            "replay": {"op": "M", "pattern": x.rsplit(" /", 1)[0], "string": s, "options": x.rsplit(" /", 1)[1] if " /" in x else "X", "impl": io, "spec": mo}})
     ctx.stats["regexes"] = nre
     ctx.stats["regex_cases"] = len(cases)
     ctx.samples.append({"pattern": cases[len(cases) // 2][2], "string": cases[len(cases) // 2][3], "impl": i[len(cases) // 2], "model": m[len(cases) // 2]})
@@ -362,6 +384,385 @@ def run_regex(ctx):
                 "replay": {"op": "M", "pattern": x, "string": "a", "impl": o, "spec": "exc ParseException"}})
     ctx.stats["malformed_patterns"] = len(MALFORMED)
     return len(cases) + len(MALFORMED)
+
+# ------------------------------------------------------------------ shared: spec evaluation and judging
+ANY = "c:0-10ffff,*"
+
+def spec_eval(pairs):
+    """pairs: iterable of (rpn, subject) -> dict (rpn, subject) -> '1' / '0' (Lean derivative matcher, proved = language)"""
+    uniq = sorted(set(pairs))
+    if not uniq: return {}
+    out = common.run_driver(["regex"], input=("\n".join("M %s %s" % (p, hexs(s)) for p, s in uniq) + "\n").encode()).decode().split("\n")
+    res = {}
+    for (p, s), o in zip(uniq, out):
+        if o not in ("0", "1"):
+            raise common.InfraError("Spec driver rejected %s on %r: %s" % (p, s, o))
+        res[(p, s)] = o
+    return res
+
+def known_first_match(cands):
+    """cands: list of (pattern, subject) false negatives in schema mode.  Returns the set of indices that are the recorded
+    'first match is not backtracked to the end' defect: the same expression followed by an end sentinel accepts."""
+    if not cands: return set()
+    probe = ["M %s %s" % (hexs("(" + x + ")#"), hexs(s + "#")) for x, s in cands]
+    po, _ = common.run_lines_resilient("hx_regex", probe, env=FASTCRASH)
+    return {k for k, o in enumerate(po) if o == "1"}
+
+def keep_smallest(bad, key, item):
+    """item = (spec, impl, pattern, subject, options, rpn, note)"""
+    if key not in bad or len(item[2]) + len(item[3]) < len(bad[key][2]) + len(bad[key][3]):
+        bad[key] = item
+
+def mode_name(opt):
+    return "schema mode" if opt == "X" else "options %r" % ("" if opt == "-" else opt)
+
+def emit(ctx, bad):
+    for key, (so, io, x, s, opt, rpn, note) in bad.items():
+        shown = s if len(s) <= 80 else s[:30] + "...(%d chars)..." % len(s) + s[-30:]
+        ctx.violations.append({"key": key, "concrete": True,
+            "what": "RegularExpression(%r, %s)%s gives %s but %s requires %s%s" % (
+                x, mode_name(opt), "" if so.startswith("exc") and s == "" else ".matches(%r)" % shown, io,
+                "XML Schema Datatypes Appendix F" if so.startswith("exc") else "the language semantics (proved matcher)", so,
+                ("; " + note) if note else ""),
+            "replay": {"op": "M", "pattern": x, "string": s, "options": opt, "rpn": rpn, "impl": io, "spec": so}})
+
+# ------------------------------------------------------------------ long subjects (explicit-stack path of match())
+LONG_PADS = ["y*", "[yz]*", "(y|z)*", "(yz)*", ".*", "y+", "y{2,}", "[^a-x]*", "(y)*", "(x{1,2}(b|c))*", "(w{0,2}b?c)*"]
+LONG_ATOMS = ["x", "[xw]", "(xw)", "(x|w)", "(x)", "."]
+LONG_TAILS = ["(b|c)", "z?", "(b)", "(bc)?", "(b|c)d", "b?c", "(b|cd)", "(b|c)?d?", "(b|(c|d))", "(b|c)(d|a)?", "(b)(c)?", "(b?)",
+              "[bc]", "b", "", "(b|c){1,2}", "(b|c)*d"]
+LONG_LENS = [40, 255, 259, 300, 511, 512, 513, 600]
+
+def xsd_ast(text):
+    v = XSD.parse(text)
+    if v[0] != "ok": raise common.InfraError("generator produced %r, oracle says %s" % (text, v))
+    return v[1]
+
+def gen_long_pattern(r):
+    pre = r.choice(LONG_PADS) if r.chance(3, 4) else ""
+    post = r.choice(LONG_PADS[:9]) if (pre == "" or r.chance(1, 3)) else ""
+    atom = r.choice(LONG_ATOMS)
+    q = r.below(100)
+    if q < 72:
+        n = r.below(4); quant = "{%d,%d}" % (n, n + 1 + r.below(3))
+    elif q < 79: quant = "{%d}" % (1 + r.below(3))
+    elif q < 86: quant = "{%d,}" % r.below(3)
+    else: quant = r.choice(["?", "*", "+"])
+    core = atom + quant
+    tail = r.choice(LONG_TAILS[:12]) if r.chance(3, 4) else r.choice(LONG_TAILS)
+    style = r.below(4)
+    if style == 1: text = "(" + pre + core + ")" + tail + post
+    elif style == 2: text = pre + "(" + core + tail + ")" + post
+    else: text = pre + core + tail + post
+    return text, (pre, core, tail, post)
+
+def fill_pad(ast, r, budget):
+    """as many copies of the pad body as fit into `budget` characters (at least its minimum count)"""
+    if ast[0] != "rep": return ""
+    out = ""; cnt = 0
+    simple = ast[1][0] in ("cls",) or (ast[1][0] == "grp" and ast[1][1][0] in ("cls", "alt"))
+    while True:
+        u = XSD.sample(ast[1], r, None, "yz" if simple else "abcxyzw")
+        if u == "" or (len(out) + len(u) > budget and cnt >= ast[2]): break
+        out += u; cnt += 1
+    return out
+
+def build_subject(r, parts, asts, L, j, wrong, corrupt):
+    pre, core, tail, post = asts
+    cs = XSD.sample(core, r, j)
+    ts = wrong if wrong is not None else XSD.sample(tail, r)
+    rest = max(0, L - len(cs) - len(ts))
+    if parts[0] and parts[3]:
+        a = r.choice([rest, rest // 2, 3, max(0, rest - 3), 0])
+    else:
+        a = rest if parts[0] else 0
+    ps = fill_pad(pre, r, a)
+    qs = fill_pad(post, r, rest - len(ps))
+    if corrupt and (ps or qs):
+        if ps and (not qs or r.chance(1, 2)):
+            k = r.below(len(ps)); ps = ps[:k] + "q" + ps[k + 1:]
+        else:
+            k = r.below(len(qs)); qs = qs[:k] + "q" + qs[k + 1:]
+    return ps + cs + ts + qs
+
+def head_char_explains(cands):
+    """cands: (pattern, subject, options, spec) mismatches in the general mode without option H.  Returns the indices where
+    adding H (PROHIBIT_HEAD_CHARACTER_OPTIMIZATION) alone restores the answer the language requires."""
+    if not cands: return set()
+    probe = ["M %s %s %s" % (hexs(x), hexs(s), (opt if opt != "-" else "") + "H") for x, s, opt, _ in cands]
+    po, _ = common.run_lines_resilient("hx_regex", probe, env=FASTCRASH)
+    return {k for k, o in enumerate(po) if o == cands[k][3]}
+
+def run_long(ctx):
+    """Subjects longer than 256 UTF-16 units take the explicit-stack branch of RegularExpression::match (closures and
+    optional copies of {n,m} are pushed instead of recursed into).  The per-case cost of the sanitizer build is ~linear in the
+    subject, so the quick tier spends its budget on the window 256..258 and one longer length per expression."""
+    r = ctx.rng
+    full = ctx.thorough()
+    npat = 60 if full else 24
+    seen = set(); cases = []      # (impl line, rpn, subject, pattern text, options)
+    fixed = [("y*x{1,3}(b|c)", ("y*", "x{1,3}", "(b|c)", "")), ("x{1,3}(b|c)y*", ("", "x{1,3}", "(b|c)", "y*")),
+             ("y*x{2,4}z?", ("y*", "x{2,4}", "z?", ""))]
+    pats = list(fixed)
+    while len(pats) < npat + len(fixed):
+        pats.append(gen_long_pattern(r))
+    def add(text, opt, rpn, s):
+        cases.append(("M %s %s %s" % (hexs(text), hexs(s), opt), rpn, s, text, opt))
+    for text, parts in pats:
+        if text in seen: continue
+        seen.add(text)
+        whole = xsd_ast(text)
+        if XSD.hazard(whole)[1]: continue
+        rpn = XSD.ast_rpn(whole)
+        srpn = ANY + "," + rpn + ",.," + ANY + ",."
+        asts = [xsd_ast(p) for p in parts]
+        core = asts[1]
+        n, m = core[2], core[3]
+        top = (m if m is not None else n + 3) + 1
+        js = list(range(0, min(top, 5) + 1))
+        hi = min(top - 1, 5)
+        L2 = [r.choice([256, 258, 258, 259, 300, 511, 512, 513, 600])] + ([r.choice(LONG_LENS)] if full else [])
+        for L in [257] + L2:
+            if L == 257 or full:
+                variants = [(j, None, False) for j in js]
+                variants.append((r.choice(js), r.choice(["", "a", "bb", "cb", "x"]), False))
+                variants.append((min(max(n, 1), top), None, True))
+            else:
+                variants = [(j, None, False) for j in sorted({n, hi, top})]
+            for j, wrong, corrupt in variants:
+                s = build_subject(r, parts, asts, L, j, wrong, corrupt)
+                add(text, "X", rpn, s)
+                add("^" + text + "$", "-", rpn, s)
+                if full or (L == 257 and wrong is None and not corrupt and j in (hi, top)):
+                    for opt in ("F", "H", "FH"):
+                        add("^" + text + "$", opt, rpn, s)
+                    for opt in (("-", "FH") if full else ("-",)):
+                        add(text, opt, srpn, s)
+        # the same core and tail without a closure around them: unanchored search in a long haystack
+        bare = "a" + parts[1] + parts[2]
+        brpn = XSD.ast_rpn(xsd_ast(bare))
+        bsrpn = ANY + "," + brpn + ",.," + ANY + ",."
+        for L in [257] + ([r.choice([256, 258, 300, 512, 513, 600])] if full else []):
+            for j in js:
+                mid = "a" + XSD.sample(core, r, j) + XSD.sample(asts[2], r)
+                k = r.choice([0, 1, (L - len(mid)) // 2, L - len(mid) - 1, L - len(mid)])
+                s = "q" * k + mid + "q" * max(0, L - len(mid) - k)
+                for opt in (("-", "F", "H", "FH") if full else ("-", "FH")):
+                    add(bare, opt, bsrpn, s)
+    spec = spec_eval((c[1], c[2]) for c in cases)
+    io, crashes = common.run_lines_resilient("hx_regex", [c[0] for c in cases], env=FASTCRASH)
+    bad = {}; fneg = []; gen = []
+    nin = 0
+    for c, o in zip(cases, io):
+        so = spec[(c[1], c[2])]
+        nin += so == "1"
+        if o == so: continue
+        item = (so, o, c[3], c[2], c[4], c[1], "subject length %d" % len(c[2]))
+        if o.startswith("CRASH"): keep_smallest(bad, "regex-crash", item)
+        elif o.startswith("exc"): keep_smallest(bad, "regex-syntax:wellformed-rejected", item)
+        elif c[4] == "X" and so == "1" and o == "0": fneg.append(item)
+        elif c[4] != "X" and "H" not in c[4]: gen.append(item)
+        else: keep_smallest(bad, "regex-long-subject:verdict", item)
+    known = known_first_match([(it[2], it[3]) for it in fneg[:400]])
+    for k, it in enumerate(fneg[:400]):
+        keep_smallest(bad, "regex-schema-mode-first-match-not-backtracked" if k in known else "regex-long-subject:verdict", it)
+    headc = head_char_explains([(it[2], it[3], it[4], it[0]) for it in gen[:400]])
+    for k, it in enumerate(gen[:400]):
+        if k in headc:
+            keep_smallest(bad, "regex-head-character-optimisation", it[:6] + (it[6] + "; with option H added (no head-character optimisation) the answer is " + it[0],))
+        else:
+            keep_smallest(bad, "regex-long-subject:verdict", it)
+    emit(ctx, bad)
+    ctx.stats["long_subject_patterns"] = len(seen)
+    ctx.stats["long_subject_cases"] = len(cases)
+    ctx.stats["long_subject_in_language"] = nin
+    ctx.stats["long_subject_spec_evaluations"] = len(spec)
+    ctx.stats["long_subject_first_match_known"] = len(known)
+    ctx.stats["long_subject_head_character_cases"] = len(headc)
+    mid = cases[len(cases) // 3]
+    ctx.samples.append({"long_pattern": mid[3], "options": mid[4], "subject_length": len(mid[2]), "spec": spec[(mid[1], mid[2])]})
+    return len(cases)
+
+# ------------------------------------------------------------------ malformed / edge syntax against the Appendix F oracle
+QGRID = [0, 1, 2, 3, 4, 7, 12]
+QATOMS = [("a", ["a"]), ("[ab]", ["a", "b"]), ("(ab)", ["ab"]), ("(a|b)", ["a", "b"])]
+CURATED = ["[-]", "[^-]", "[-]+a", "[--]", "[a-b-c]", "[\\d-a]", "[\\s-a]", "[a-c-e]", "\\1", "(a)\\1", "a{1,0}", "a{2,0}", "(ab){3,0}", "[ab]{7,0}", "a{12,0}", "a{0,0}", "a{0}", "a{1}", "a{,1}", "a{,}", "a{}", "a{1,}", "a{0,}",
+    "a{1,2", "a{1", "a{", "a}", "a{1}}", "a{{1}", "{1}", "{", "}", "a{1,2,3}", "a{1, 2}", "a{ 1}", "a{1 }", "a{-1}", "a{+1}", "a{1,-2}", "a{01,02}", "a{00}",
+    "a{1}{2}", "a{1}*", "a**", "a*?", "a+?", "a??", "a?*", "a*+", "a{1,2}?", "a{2,1}", "a{3,2}", "(a{2,1})", "a{10,9}", "a|*", "(*a)", "(+)", "|", "a|", "|a", "a||b",
+    "(|)", "()", "(a|)", "(|a)b", "(a", "a)", "((a)", "(a))", ")(", "(", ")", "[", "]", "a]", "[a", "[]", "[^]", "[a-]", "[-a]", "[^-a]", "[a-b-c]",
+    "[z-a]", "[b-a]", "[a-a]", "[\\d-a]", "[a-\\d]", "[a-\\s]", "[a-[b]]", "[a-c-[b]]", "[a-c-[b]", "[a-c-[b]c]", "[a-c-[^b]]", "[^a-c-[b]]", "[a[b]]", "[a-c-[]]",
+    "[\\-a]", "[a\\]]", "[\\^a]", "[a^]", "[{}]", "[.]", "[*+?|()]", "[a,b]", "[\\s]", "[^\\s]", "[\\n-\\r]", "[\\r-\\n]",
+    "\\", "a\\", "\\q", "\\a", "\\1", "\\e", "\\x41", "\\u0041", "\\$", "\\,", "\\ ", "\\Q", "\\b", "\\B", "\\A", "\\z", "\\<", "\\>",
+    "\\.", "\\\\", "\\{", "\\}", "\\-", "\\[", "\\]", "\\^", "\\|", "\\?", "\\*", "\\+", "\\(", "\\)", "\\n", "\\t", "\\r", "\\s", "\\S", "\\s+a", "\\d", "\\w", "\\i\\c*",
+    "\\p{L}", "\\p{Lu}", "\\P{Nd}", "\\p{IsBasicLatin}", "\\p{Foo}", "\\p{", "\\p{L", "\\p", "\\pL", "\\p{}", "\\p{l}", "\\p{LL}", "\\P{", "\\P{Foo}",
+    "[\\p{L}]", "[\\p{Foo}]", "[\\p{L]", "*", "+", "?", "*a", "+a", "?a", "(?a)", "(?:a)", "(?=a)", "(?#a)", "^a$", "a$", "^", "$", "a^b", ".", "a.b", "-", "a-b", ",",
+    "a{2}b{0,1}", "(a{2}){2}", "(a|b){0,2}b", "a{0,0}b", "(ab){0}", "[ab]{0,0}c?"]
+# hand-stated verdicts (from reading Appendix F) that the oracle itself must reproduce: guards the oracle against its own bugs
+ORACLE_SELFTEST = [("a{1,0}", "rej"), ("a{0,0}", "ok"), ("a{,1}", "rej"), ("a{1,}", "ok"), ("a{2,1}", "rej"), ("a{1", "rej"), ("a**", "rej"), ("a|", "ok"),
+    ("()", "ok"), ("(a", "rej"), ("a)", "rej"), ("[z-a]", "rej"), ("[a-]", "ok"), ("[-a]", "ok"), ("[]", "rej"), ("[^]", "rej"), ("[a-\\d]", "rej"),
+    ("[a-c-[b]]", "ok"), ("\\q", "rej"), ("\\p{Foo}", "rej"), ("\\p{", "rej"), ("\\p{L}", "ok"), ("*", "rej"), ("a{1}{2}", "rej"), ("a{01,02}", "ok"),
+    ("[a-b-c]", "rej"), ("[\\d-a]", "rej"), ("[^^]", "unk"), ("\\p{IsFoo}", "unk"), ("a]", "rej"), ("a{1, 2}", "rej"), ("\\-", "ok"), ("a-b", "ok"), ("^a$", "ok")]
+
+EDGE_ATOMS = ["a", "b", "a", "b", "-", ",", "^", "$", "\\.", "\\\\", "\\{", "\\}", "\\-", "\\[", "\\]", "\\^", "\\|", "\\?", "\\*", "\\+", "\\(", "\\)",
+    "\\n", "\\t", "\\s", "\\S", "\\d", "\\p{L}", "\\P{Nd}", ".", "[ab]", "[a-c]", "[^a]", "[-a]", "[a-]", "[\\-a]", "[a\\]]", "[\\^a]", "[a^]", "[a-c-[b]]",
+    "[^a-[b]]", "[\\s]", "[{}]", "[.]", "[*+?|()]", "[a,b]", "()", "(|a)", "(a|)", "(a||b)"]
+EDGE_QUANT = ["?", "*", "+", "{0}", "{1}", "{2}", "{0,}", "{1,}", "{2,}", "{0,0}", "{0,1}", "{1,1}", "{0,2}", "{1,3}", "{2,2}", "{00,1}", "{1,02}"]
+EDGE_INSERT = list("(){}[]|*+?\\,-^012ab.") + ["{1,0}", "{2,1}", "{,1}", "\\p{", "{0,0}", "[b-a]"]
+
+def gen_edge(r, depth):
+    k = r.below(100)
+    if depth == 0 or k < 35:
+        return r.choice(EDGE_ATOMS)
+    if k < 55:
+        return gen_edge(r, depth - 1) + gen_edge(r, depth - 1)
+    if k < 65:
+        return "(" + gen_edge(r, depth - 1) + "|" + gen_edge(r, depth - 1) + ")"
+    if k < 72:
+        return "(" + gen_edge(r, depth - 1) + ")"
+    a = gen_edge(r, depth - 1)
+    v = XSD.parse(a)
+    single = v[0] == "ok" and v[1][0] in ("cls", "grp", "opaque")
+    return (a if single else "(" + a + ")") + r.choice(EDGE_QUANT)
+
+def mutate(r, s):
+    for _ in range(r.below(3)):
+        if not s: break
+        k = r.below(len(s)); c = r.below(4)
+        if c == 0: s = s[:k] + s[k + 1:]
+        elif c == 1: s = s[:k] + r.choice(EDGE_INSERT) + s[k:]
+        elif c == 2: s = s[:k] + s[k] + s[k:]
+        elif k + 1 < len(s): s = s[:k] + s[k + 1] + s[k] + s[k + 2:]
+    return s
+
+SPECIALS = "-,^$.{}[]|?*+()\\ \n\t0"
+def edge_subjects(r, text, ast):
+    alpha = ["a", "b"] + [c for c in SPECIALS if c in text or (c == "\n" and "\\n" in text) or (c == "\t" and "\\t" in text) or (c == " " and "\\s" in text)][:3]
+    ss = all_strings(2, alpha)
+    for _ in range(6):
+        ss.append(XSD.sample(ast, r, None, "ab" + "".join(alpha[2:])))
+    ss += ["aab", "aba", "bab", "aaaa"]
+    return sorted(set(ss))
+
+def rejected_key(text):
+    """category of a well-formed expression the constructor refuses (narrow, so that a recorded deviation masks nothing else)"""
+    import re
+    if re.search(r"\[\^?-\]", text): return "regex-syntax:wellformed-rejected:class-lone-dash"
+    return "regex-syntax:wellformed-rejected"
+
+def general_mode_claim(text, verdict):
+    """what may be claimed for the general (non-schema) syntax: only dialect-independent rejections on texts that use no
+    class, escape or (? construct before the error"""
+    if verdict[0] != "rej" or verdict[1] not in ("quantifier-min-gt-max", "paren"): return False
+    return not any(t in text for t in ("[", "]", "\\", "(?"))
+
+def run_syntax(ctx):
+    r = ctx.rng
+    for text, want in ORACLE_SELFTEST:
+        if XSD.parse(text)[0] != want:
+            raise common.InfraError("Appendix F oracle self-test: %r judged %s, stated %s" % (text, XSD.parse(text), want))
+    cases = []    # (impl line, expectation, rpn or None, subject, pattern, options, category)
+    def add_reject(text, opt, cat):
+        cases.append(("M %s %s %s" % (hexs(text), hexs("a"), opt), "exc ParseException", None, "a", text, opt, cat))
+    def add_accept(text, opt, rpn, s):
+        cases.append(("M %s %s %s" % (hexs(text), hexs(s), opt), None, rpn, s, text, opt, None))
+    # (A) quantifier grid, both dialects
+    grid = 0
+    for atom, units in QATOMS:
+        forms = [("{%d,%d}" % (n, m), n, m) for n in QGRID for m in QGRID] + [("{%d}" % n, n, n) for n in QGRID] + [("{%d,}" % n, n, None) for n in QGRID]
+        for q, n, m in forms:
+            text = atom + q; grid += 1
+            v = XSD.parse(text)
+            if (m is not None and n > m) != (v == ("rej", "quantifier-min-gt-max")):
+                raise common.InfraError("oracle disagrees with the grid on " + text)
+            if v[0] == "rej":
+                add_reject(text, "X", v[1]); add_reject(text, "-", v[1]); add_reject("^" + text + "$", "-", v[1]); add_reject("(" + text + ")b", "FH", v[1])
+                continue
+            rpn = XSD.ast_rpn(v[1])
+            hi = m if m is not None else n + 4
+            for j in sorted({0, n - 1, n, n + 1, hi - 1, hi, hi + 1, hi + 2} - {-1}):
+                s = "".join(r.choice(units) for _ in range(j))
+                add_accept(text, "X", rpn, s)
+                add_accept("^" + text + "$", "-", rpn, s)
+                if j in (n, hi + 1): add_accept("^" + text + "$", "FH", rpn, s)
+            add_accept(text, "X", rpn, "a" * n + "x")
+    # (A') a closure / counted repetition of '.' in front of a literal, general mode: the answer must not depend on the
+    # head-character optimisation (option H switches it off)
+    for text in [".{1}b", ".{1,2}b", "^.*b$", "^.{1,2}b$", "^(.)*b$", "^(a|.)*b$", "^.+b$", "^.?b$", "(.){2}b", "^[^c]*b$", "^a*.b$", "(a|.)b", "^(a|.)b$", "(a|b|.)a"]:
+        inner = text.strip("^$")
+        rpn = XSD.ast_rpn(xsd_ast(inner))
+        if not (text.startswith("^") and text.endswith("$")):
+            rpn = ANY + "," + rpn + ",.," + ANY + ",."
+        for s in ["ab", "b", "aab", "abb", "ba", "a", "cab", ""]:
+            for opt in ("-", "F", "H", "FH"):
+                add_accept(text, opt, rpn, s)
+    # (B) curated edge list and (C) mutated edge-syntax expressions, schema mode judged in full, general mode where unambiguous
+    texts = list(CURATED)
+    nrand = 3000 if ctx.thorough() else 260
+    for _ in range(nrand):
+        texts.append(mutate(r, gen_edge(r, 1 + r.below(3))))
+    seen = set(); nrej = nok = nunk = nskip = 0
+    cats = {}
+    for text in texts:
+        if text in seen: continue
+        seen.add(text)
+        v = XSD.parse(text)
+        if v[0] == "unk": nunk += 1; continue
+        if v[0] == "rej":
+            nrej += 1; cats[v[1]] = cats.get(v[1], 0) + 1
+            add_reject(text, "X", v[1])
+            if general_mode_claim(text, v):
+                add_reject(text, "-", v[1])
+            continue
+        if XSD.hazard(v[1])[1] or XSD.max_count(v[1]) > 12: nskip += 1; continue
+        nok += 1
+        rpn = XSD.ast_rpn(v[1])
+        if rpn is None:
+            cases.append(("M %s %s X" % (hexs(text), hexs("a")), "accepted", None, "a", text, "X", None))
+            continue
+        for s in edge_subjects(r, text, v[1]):
+            add_accept(text, "X", rpn, s)
+    spec = spec_eval((c[2], c[3]) for c in cases if c[1] is None)
+    io, crashes = common.run_lines_resilient("hx_regex", [c[0] for c in cases], env=FASTCRASH)
+    bad = {}; fneg = []; gen = []
+    for c, o in zip(cases, io):
+        line, exp, rpn, s, text, opt, cat = c
+        if exp == "exc ParseException":
+            if o == exp: continue
+            key = "regex-crash" if o.startswith("CRASH") else ("regex-syntax:malformed-accepted:" + cat) if o in ("0", "1") else "regex-syntax:malformed-wrong-exception:" + o.split()[-1]
+            keep_smallest(bad, key, (exp, o, text, "", opt, None, "not derivable from regExp: " + cat))
+            continue
+        if exp == "accepted":
+            if o in ("0", "1"): continue
+            keep_smallest(bad, "regex-crash" if o.startswith("CRASH") else rejected_key(text), ("accepted", o, text, "", opt, None, ""))
+            continue
+        so = spec[(rpn, s)]
+        if o == so: continue
+        item = (so, o, text, s, opt, rpn, "")
+        if o.startswith("CRASH"): keep_smallest(bad, "regex-crash", item)
+        elif o.startswith("exc"): keep_smallest(bad, rejected_key(text), item)
+        elif opt == "X" and so == "1" and o == "0": fneg.append(item)
+        elif opt != "X" and "H" not in opt: gen.append(item)
+        else: keep_smallest(bad, "regex-syntax:language", item)
+    known = known_first_match([(it[2], it[3]) for it in fneg[:400]])
+    for k, it in enumerate(fneg[:400]):
+        keep_smallest(bad, "regex-schema-mode-first-match-not-backtracked" if k in known else "regex-syntax:language", it)
+    headc = head_char_explains([(it[2], it[3], it[4], it[0]) for it in gen[:400]])
+    for k, it in enumerate(gen[:400]):
+        if k in headc:
+            keep_smallest(bad, "regex-head-character-optimisation", it[:6] + ("with option H added (no head-character optimisation) the answer is " + it[0],))
+        else:
+            keep_smallest(bad, "regex-syntax:language", it)
+    emit(ctx, bad)
+    ctx.stats["syntax_head_character_cases"] = len(headc)
+    ctx.stats["syntax_quantifier_grid_patterns"] = grid
+    ctx.stats["syntax_texts"] = len(seen)
+    ctx.stats["syntax_oracle_reject"] = nrej
+    ctx.stats["syntax_oracle_accept"] = nok
+    ctx.stats["syntax_oracle_no_claim"] = nunk
+    ctx.stats["syntax_skipped_known_hazard_or_large"] = nskip
+    ctx.stats["syntax_reject_categories"] = cats
+    ctx.stats["syntax_cases"] = len(cases)
+    return len(cases)
 
 def run_histories(ctx):
     r = ctx.rng
@@ -412,8 +813,11 @@ def run_histories(ctx):
 def correspondence(ctx):
     a = run_histories(ctx)
     b = run_regex(ctx)
-    ctx.stats["evaluations"] = a + b
-    ctx.stats["distinct_nontrivial"] = ctx.stats["histories"] + ctx.stats["regex_cases"] - ctx.stats["regexes"]
+    c = run_long(ctx)
+    d = run_syntax(ctx)
+    ctx.stats["evaluations"] = a + b + c + d
+    ctx.stats["distinct_nontrivial"] = (ctx.stats["histories"] + ctx.stats["regex_cases"] - ctx.stats["regexes"]
+                                        + ctx.stats["long_subject_cases"] + ctx.stats["syntax_cases"])
 
 _done = {}
 def search(ctx, broken):
@@ -427,8 +831,13 @@ def replay(ctx, path):
         m, i, _ = common.run_pair("regex", "hx_regex", [r["line"]])
         print("case :", r["line"]); print("model:", m[0]); print("impl :", i[0]); print("spec :", oracle_history(r["line"]))
     elif r.get("op") == "M":
-        p = common.run_harness("hx_regex", input=("M %s %s\n" % (hexs(r["pattern"]), hexs(r["string"]))).encode())
-        print("pattern:", r["pattern"], "string:", repr(r["string"])); print("impl :", p.stdout.decode().strip()); print("spec :", r.get("spec"))
+        opt = r.get("options", "X")
+        p = common.run_harness("hx_regex", input=("M %s %s %s\n" % (hexs(r["pattern"]), hexs(r["string"]), opt)).encode())
+        print("pattern:", r["pattern"], "options:", opt, "string:", repr(r["string"])); print("impl :", p.stdout.decode().strip())
+        if r.get("rpn"):
+            print("spec :", common.run_driver(["regex"], input=("M %s %s\n" % (r["rpn"], hexs(r["string"]))).encode()).decode().strip(), "(Lean matcher on", r["rpn"] + ")")
+        else:
+            print("spec :", r.get("spec"))
     else:
         print(json.dumps(r))
     return 0
